@@ -195,6 +195,11 @@ func (round *round3) Start() *tss.Error {
 	// PRINT public key & private share
 	common.Logger.Debugf("%s public key: %x", round.PartyID(), eddsaPubKey)
 
+	// this is the final round: nothing more is awaited from the other parties
+	for j := range round.ok {
+		round.ok[j] = true
+	}
+
 	round.end <- round.save
 	return nil
 }
